@@ -32,9 +32,12 @@ def plan(tier, seed):
     a_ = dict(base, tag="c14-proc-a", nonce=1)
     b_ = dict(base, tag="c14-proc-b", nonce=2)
     jobs.append({"name": "c14-two-processes", "module": "vmon.jobs.pair_compare", "args": {"mode": "identical", "a": a_, "b": b_, "cls": "same spec in two processes"}, "timeout": 600})
-    return {"cases": [a_, b_], "jobs": jobs, "monitors": []}
+    # the options embedded after an interactive regrid (redistributePoints) are those in force
+    h_ = cases.tok("cdn", s=1, fs=1, orth=False, tag="c14-regrid-then-write")
+    h_["history"] = [{"nonorthogonal_xpoint_poloidal_spacing_length": 0.08, "nonorthogonal_target_all_poloidal_spacing_length": 0.2}]
+    return {"cases": [a_, b_, h_], "jobs": jobs, "monitors": ["C14"]}
 
 
 def required(tier, classes, records):
-    pats = [("twice in one process", "twice in one process"), ("two processes", "two processes"), ("after unrelated build", "after an unrelated"), ("input arrays with reverse_current", "reverse_current"), ("input arrays with psi_divide_twopi", "psi_divide_twopi"), ("input arrays with reverse_Bt", "reverse_Bt"), ("cli loop", "cli loop")]
+    pats = [("twice in one process", "twice in one process"), ("two processes", "two processes"), ("after unrelated build", "after an unrelated"), ("input arrays with reverse_current", "reverse_current"), ("input arrays with psi_divide_twopi", "psi_divide_twopi"), ("input arrays with reverse_Bt", "reverse_Bt"), ("cli loop", "cli loop"), ("embedded options after a regrid", r"embedded options after")]
     return need_classes(classes, pats)
